@@ -74,6 +74,38 @@ func renderFile0(f *jen.File) string {
 	return out
 }
 
+// collected: what the caller's buffer already holds when the next File is rendered behind it (a generator
+// that collects several Files, or a marker line and a File, in one buffer).
+var collected = []byte("// ---- output of the Files rendered before this one ----\npackage earlier\n\nvar Earlier = 1\n")
+
+// renderBehind renders f behind earlier output in one *bytes.Buffer; what the File contributed is what
+// the buffer grew by.
+func renderBehind(f *jen.File) string {
+	if hung.Load() {
+		return "HUNG: an earlier File.Render in this process never returned"
+	}
+	var out string
+	if err := hx.Safe(func() error {
+		buf := bytes.NewBuffer(append([]byte{}, collected...))
+		if err := f.Render(buf); err != nil {
+			out = "ERROR: " + err.Error()
+			if !bytes.Equal(buf.Bytes(), collected) {
+				out = "FAILED RENDER CHANGED THE BUFFER: " + buf.String()
+			}
+			return nil
+		}
+		if !bytes.HasPrefix(buf.Bytes(), collected) {
+			out = "EARLIER OUTPUT IN THE BUFFER WAS CHANGED: " + buf.String()
+			return nil
+		}
+		out = "OK:" + string(buf.Bytes()[len(collected):])
+		return nil
+	}); err != nil {
+		return "PANIC: " + err.Error()
+	}
+	return out
+}
+
 func stripRefs(f *recipe.File) *recipe.File {
 	g := f.Clone()
 	for _, b := range g.Body {
@@ -354,6 +386,13 @@ func check(c Case) error {
 		jobs = fresh(false)
 		for _, i := range perm {
 			i %= n
+			if pi%2 == 1 {
+				// (every other permutation renders each File behind earlier output in one buffer)
+				if err := cmp(fmt.Sprintf("permutation %d: build and render alternating, behind earlier output in the caller's buffer", pi), i, renderBehind((&recipe.Builder{}).File(jobs[i]))); err != nil {
+					return err
+				}
+				continue
+			}
 			if err := cmp(fmt.Sprintf("permutation %d: build and render alternating", pi), i, renderFile((&recipe.Builder{}).File(jobs[i]))); err != nil {
 				return err
 			}
